@@ -46,7 +46,7 @@ def kernel_facts(c, impl):
     nind, unph, child, mnode = c["nind"], c["unph"], c["child"], c["mnode"]
     for b, (e0, e1) in enumerate(edges):
         i0, i1 = int(nind[child[e0]]), int(nind[child[e1]])
-        if i0 == bc.NULL or i0 != i1 or not unph[i0] or e0 == e1:
+        if i0 == bc.NULL or i0 != i1 or not unph[i0] or e0 == e1 or child[e0] == child[e1]:
             bad.append(("block-edges-not-of-one-individual", f"block {b}: edges {(e0, e1)} belong to individuals {(i0, i1)}"))
             break
     for m, b in enumerate(mblock):
